@@ -219,13 +219,17 @@ Definition pq_query (p : path_query) : outcome (option bytes) :=
   if (pq_query_start p =? length (pq_string p))%nat then Ok None
   else obind (slice_chk (pq_query_start p) (length (pq_string p)) (pq_string p)) (fun q => Ok (Some q)).
 
-(** ** [extensions::stream_body]: the window of a (ranged) streamed file *)
+(** ** [extensions::stream_body]: the window of a (ranged) streamed file
+    (since C09's repair b7d86a0: a start that is not inside the file is answered 416 before anything else,
+    the end is clamped to the file) *)
 Definition stream_window (checked : bool) (range : option (N * N)) (file_len : N) : outcome (N * N * N) :=
   let start := match range with Some (s, _) => s | None => 0 end in
-  let end_ := match range with Some (_, e) => e | None => file_len end in
+  if match range with Some _ => file_len <=? start | None => false end then Err 416 else
+  let end_ := match range with Some (_, e) => N.min e file_len | None => file_len end in
   obind (sub_u64 checked end_ start) (fun len =>                              (* let len = end - start *)
   (* file.seek(SeekFrom::Start(start)) fails beyond i64::MAX (lseek: EINVAL): the 404 page is returned
-     without a stream, and SendKind::send applies the range to that page: its start is past the end, 416 *)
+     without a stream, and SendKind::send applies the range to that page: its start is past the end, 416
+     (not reachable for a real file any more: its length is below 2^63, so such a start is refused above) *)
   if 9223372036854775807 <? start then Err 416 else Ok (start, end_, len)).
 (** One turn of the streaming loop: [pos += read; buf_end = if pos > end { read - (pos - end) } else { read }] *)
 Definition stream_chunk (checked : bool) (pos read end_ : N) : outcome (N * N) :=
